@@ -68,7 +68,7 @@ def local_check_passes(inp):
 
 
 @with_signature(SPEC)
-def c17_ages(**kw):
+def c17_ages(kw):
     tree, nodes, lengths = build_lengths(kw)
     pmode = choose(kw["pmode"], 4)      # numeric precision / None / False / negative
     force = choose(kw["force"], 3)      # none / max / min
@@ -120,7 +120,7 @@ def c17_ages(**kw):
 
 
 @with_signature(SPEC)
-def c17_depths(**kw):
+def c17_depths(kw):
     """depths, root distances, exact age/length round trip and lineage counts on exactly ultrametric trees"""
     parents = list(kw["shape"])
     n = len(parents) + 1
@@ -232,7 +232,7 @@ EULER = 0.5772156649015329
 
 
 @with_signature(SPEC)
-def c17_shape_stats(**kw):
+def c17_shape_stats(kw):
     parents = list(kw["shape"])
     tree, nodes = tg.build(parents, None, rooted=True)
     binary = all(len(nd._child_nodes) in (0, 2) for nd in nodes)
@@ -270,7 +270,7 @@ def c17_shape_stats(**kw):
 
 
 @with_signature(SPEC)
-def c17_treeness(**kw):
+def c17_treeness(kw):
     tree, nodes, lengths = build_lengths(kw)
     internal = 0
     total = 0
@@ -289,7 +289,7 @@ def c17_treeness(**kw):
 
 
 @with_signature(SPEC)
-def c17_gamma(**kw):
+def c17_gamma(kw):
     """Pybus-Harvey gamma on a binary ultrametric tree with small concrete node heights"""
     parents = list(kw["shape"])
     n = len(parents) + 1
